@@ -19,7 +19,7 @@ import (
 // c14Docs are JSON texts; "raw:" marks file contents used verbatim (not valid JSON).
 var c14Docs = []string{
 	`{"a":1,"b":[1,2,3]}`, `{"a":2,"b":[1,3,2]}`, `[1,2,2,3]`, `[3,2,1]`, `[{"id":1,"v":1},{"id":2,"v":2}]`, `[{"id":2,"v":2},{"id":1,"v":3}]`,
-	`1`, `1.05`, `{"a":{"b":"x"}}`, `{"a":{"b":"y","c":[true]}}`, ``, `"str"`, `[[1,2],[2,1]]`, `[[2,1]]`,
+	`1`, `1.05`, `{"a":{"b":{"c":{"x":1,"y":2,"z":[1,2,3]}}}}`, `{"a":{"b":{"c":{"x":3,"y":4,"z":[1]}}}}`, ``, `{"a":{"b":"x"}}`, `{"a":{"b":"y","c":[true]}}`, `"str"`, `[[1,2],[2,1]]`, `[[2,1]]`,
 }
 var c14Raw = []string{"raw:{invalid", "raw:a: [1, 2]\nb: x\n"}
 
@@ -166,7 +166,7 @@ func init() {
 		Bounds: func(tier string) map[string]interface{} {
 			n := len(c14Docs)
 			if tier != "thorough" {
-				n = 9
+				n = 11
 			}
 			return map[string]interface{}{"input_files": n, "raw_inputs": len(c14Raw), "flag_vectors": len(c14FlagSpace(tier)), "binaries": c14Bins}
 		},
@@ -181,8 +181,7 @@ func init() {
 func enumC14(tier string, e *engine.Emitter) {
 	docs := c14Docs
 	if tier != "thorough" {
-		docs = docs[:9]
-		docs = append(docs, ``)
+		docs = docs[:11]
 	}
 	flags := c14FlagSpace(tier)
 	for _, bin := range c14Bins {
